@@ -24,4 +24,4 @@ elif what == "seeded":
     print("| seeded change | property | what it does (from the author's notes) | caught by |\n|---|---|---|---|")
     for d in sorted(glob.glob(os.path.join(ROOT, "seeded", "*"))):
         meta = json.load(open(os.path.join(d, "meta.json")))
-        print(f"| {meta['id']} | {meta['property']} | {meta.get('summary','')[:200]} | {', '.join(meta.get('caught_by', [])) or 'NOT CAUGHT'} |")
+        print(f"| {meta['id']} | {meta['property']} | {meta.get('summary','')[:200]} | {', '.join(meta.get('caught_by', [])) or ('ANALYSIS-ERROR (exit 2: the rewritten function is not recognised)' if meta.get('check_exit_code_on_patched_tree') == 2 else 'NOT CAUGHT')} |")
